@@ -67,8 +67,16 @@ def Val.tcode : Val → Nat
   | .str _ => 16
   | .uns _ => 17
 
-/-- `rankFloats`: `<` and `>` as Go evaluates them (every comparison with NaN is false) -/
+/-- `rankFloats` (after fix D07a): a NaN ranks before every number and equal to a NaN -/
 def rankFl : Fl → Fl → Rank
+  | .num a, .num b => rankInt a b
+  | .nan, .nan => .eq
+  | .nan, .num _ => .lt
+  | .num _, .nan => .gt
+
+/-- Go's raw `<` / `>` on floats as used by `rankComplex` on magnitudes and phases
+    (every comparison with a NaN is false, so a NaN "ranks equal" to everything there) -/
+def rankFlRaw : Fl → Fl → Rank
   | .num a, .num b => rankInt a b
   | _, _ => .eq
 
@@ -80,10 +88,10 @@ def eqFl : Fl → Fl → Bool
 /-- `rankComplex`: the `==` shortcut, then magnitude, then phase -/
 def rankCx (a b : Cx) : Rank :=
   if eqFl a.re b.re && eqFl a.im b.im then .eq
-  else match rankFl a.abs b.abs with
+  else match rankFlRaw a.abs b.abs with
     | .lt => .lt
     | .gt => .gt
-    | .eq => rankFl a.ph b.ph
+    | .eq => rankFlRaw a.ph b.ph
 
 def eqCx (a b : Cx) : Bool := eqFl a.re b.re && eqFl a.im b.im
 
